@@ -19,6 +19,7 @@ fn main() {
             "C15" => c15::replay(body),
             "C14" => c14::replay(body),
             "C05" => c05::replay(body),
+            "C04" => c04::replay(body),
             "C08" => c08::replay(body),
             "C10" | "C11" | "C12" | "C13" => ctl::replay(body),
             _ => { eprintln!("no replay for {prop}"); false }
@@ -47,6 +48,7 @@ fn main() {
         "C15" => c15::main(tier, seed, outdir),
         "C14" => c14::main(tier, seed, outdir),
         "C05" => c05::main(tier, seed, outdir),
+        "C04" => c04::main(tier, seed, outdir),
         "C08" => c08::main(tier, seed, outdir),
         "C10" => ctl::main_mode("C10", 0, tier, seed, outdir),
         "C11" => ctl::main_mode("C11", 1, tier, seed, outdir),
